@@ -264,7 +264,7 @@ GRIDS = {
     'poisson': [{'alpha': a} for a in (0, 0.5, 2, 3, 5)],
     'poisson_hanning': [{'alpha': a} for a in (0, 0.5, 1, 2, 4)],
     'tukey': [{'r': r} for r in (0, 0.01, 0.1, 0.25, 0.37, 0.5, 0.75, 0.9, 0.99, 1)],
-    'chebwin': [{'attenuation': a} for a in (45, 50, 60, 80, 100, 120)],
+    'chebwin': [{'attenuation': a} for a in (20, 30, 40, 45, 50, 60, 80, 100, 120)],
     'flattop': [{'mode': 'symmetric'}, {'mode': 'periodic'}],
     'taylor': [{'nbar': nb, 'sll': s} for nb in (2, 3, 4, 6, 8) for s in (-20, -30, -45, -60)] +
               [{'nbar': 5}, {'sll': -40}],
